@@ -31,6 +31,7 @@ type Rule struct {
 	IcmpType       string
 	State          []string // sorted
 	NotSyn         bool
+	Frag           bool // -f: second and further fragments only
 	Target         string
 	Goto           bool
 	LogLevel       string // numeric
@@ -60,9 +61,9 @@ func (r Rule) Key() string {
 	if r.Raw != "" {
 		return "RAW " + r.Raw
 	}
-	return fmt.Sprintf("i=%s o=%s s=%v%s d=%v%s p=%s sp=%s dp=%s icmp=%s st=%v nsyn=%v t=%s g=%v ll=%s m=%d",
+	return fmt.Sprintf("i=%s o=%s s=%v%s d=%v%s p=%s sp=%s dp=%s icmp=%s st=%v nsyn=%v t=%s g=%v ll=%s m=%d f=%v",
 		r.In, r.Out, r.SrcNeg, r.Src, r.DstNeg, r.Dst, r.Proto, r.Sport, r.Dport, r.IcmpType,
-		r.State, r.NotSyn, r.Target, r.Goto, r.LogLevel, r.Mark)
+		r.State, r.NotSyn, r.Target, r.Goto, r.LogLevel, r.Mark, r.Frag)
 }
 
 // Canon returns a canonical text of the whole ruleset.
@@ -210,6 +211,11 @@ func ParseRule(line string) (chain string, r Rule, ok bool) {
 			r.Dst, r.DstNeg = canonAddr(arg), neg
 		case "-p":
 			r.Proto = canonProto(arg)
+		case "-f":
+			if neg || arg != "" {
+				return fail()
+			}
+			r.Frag = true
 		case "-m":
 			// match module names carry no information of their own
 		case "--sport":
@@ -385,6 +391,9 @@ func KernelRule(chain string, r Rule) string {
 		}
 		w = append(w, "-p", p)
 	}
+	if r.Frag {
+		w = append(w, "-f")
+	}
 	if r.Sport != "" || r.Dport != "" || r.NotSyn {
 		w = append(w, "-m", r.Proto)
 		if r.Sport != "" {
@@ -539,6 +548,9 @@ func NetspocRule(chain string, r Rule, rng *rand.Rand) string {
 			p = lo + ":"
 		}
 		w = append(w, opt, p)
+	}
+	if r.Frag {
+		w = append(w, "-f")
 	}
 	ports("--sport", r.Sport)
 	ports("--dport", r.Dport)
